@@ -65,6 +65,8 @@ RULE = (
     'list-of-rows model, all live tables re-rendered at the end. non-trivial = a false result with '
     'a mixed pattern (some bins / keys / groups / items fail, some pass) rendered with at least one '
     'table, or a chain with a slice whose table was rendered; distinct = structural hash of the case')
+RULE_ADDENDA = (' Also: metadata / label values ending with a blank or made of two words; failing bins that are undefined (NaN); Fortran / strided / negative-stride layouts; the result formatted inside a two-level report twice by the same Rst object; templates of an earlier rendering joined in place before rendering an equal result again; rows of label-group tables highlighted exactly for the groups with a failure.')
+RULE = RULE + RULE_ADDENDA
 ASSUMPTIONS = [
     'dataset, test, sample, task and label names / values are identifier-like words without reST '
     'markup, never empty and never the word KO (the property quantifies over kinds, shapes, '
